@@ -531,6 +531,19 @@ impl Prop for C04 {
         Ok(())
     }
 
+    fn sanitize(case: &mut Case) {
+        // byte-decoded (fuzzer) cases stay small
+        match &mut case.vals {
+            Vals::Explicit(v) => v.truncate(150),
+            Vals::Recipe(len, width, _, _) => {
+                *len %= 300;
+                *width = (*width % 64) + 1;
+            }
+        }
+        case.extra_vals.truncate(16);
+        case.extra_idx.truncate(16);
+    }
+
     fn assumptions() -> Vec<String> {
         vec![
             "get is asked only below len".into(),
